@@ -150,6 +150,7 @@ void logf(const char* fmt, ...) __attribute__((format(printf, 1, 2)));
 // `secs` wall seconds while a run is active, reports verdict "hang".
 void start_watchdog(int secs);
 
+void heartbeat();      // tells the hang watchdog that the harness (not the code under test) is making progress
 int ignore_depth();   // > 0 while the calling thread is inside simulator / harness code
 
 // TSan ignore regions for simulator/harness code (no-ops in other variants)
